@@ -1,0 +1,32 @@
+//go:build verif
+
+package litestream
+
+import (
+	"context"
+	"io"
+	"log/slog"
+
+	"github.com/superfly/ltx"
+
+	"github.com/benbjohnson/litestream/internal"
+)
+
+// Exported wrappers for the /verif Faults layer (C10, C05). Add-only; compiled
+// only with the "verif" build tag.
+
+// VerifLTXFileOpener has the method set of internal.LTXFileOpener.
+type VerifLTXFileOpener interface {
+	OpenLTXFile(ctx context.Context, level int, minTXID, maxTXID ltx.TXID, offset, size int64) (io.ReadCloser, error)
+}
+
+// VerifNewResumableReader exposes internal.NewResumableReader (package internal
+// cannot be imported from outside the module).
+func VerifNewResumableReader(ctx context.Context, client VerifLTXFileOpener, level int, minTXID, maxTXID ltx.TXID, size int64, rc io.ReadCloser, logger *slog.Logger) io.ReadCloser {
+	return internal.NewResumableReader(ctx, client, level, minTXID, maxTXID, size, rc, logger)
+}
+
+// VerifSyncLimited exposes Replica.sync with a batch limit (what the monitor calls).
+func (r *Replica) VerifSyncLimited(ctx context.Context, maxSyncLTXFiles int) error {
+	return r.sync(ctx, maxSyncLTXFiles)
+}
